@@ -14,6 +14,16 @@ from .values import (SV, CV, Opaque, EngineError, to_z, truth_z, ite, compare, a
 from .containers import PDict, PSet, p_and, p_not, p_sv, p_or, _p
 
 
+def unk(it, x):
+    """an unknown value (frame-tracking / opaque mode): no element structure is known"""
+    return isinstance(x, Opaque) or getattr(x, "opaque_like", False) or \
+        (isinstance(x, SV) and getattr(it, "opaque_loops", False))
+
+
+def _w(x):
+    return getattr(x, "why", "unknown")
+
+
 def install(it):
     from .interp import (Native, Namespace, PyRaise, FuncVal, ClassVal, ObjVal, BoundMethod, GuardedSeq, CannotMerge)
 
@@ -56,6 +66,8 @@ def install(it):
                 return it.call(f, [], {})
             raise PyRaise(TypeError("object has no len()"))
         if isinstance(x, (SV, CV)):
+            if getattr(it, "opaque_loops", False):
+                return SV(z3.Const(f"opaque_len[{str(getattr(x, 'z', x))[:40]}]", I))
             raise PyRaise(TypeError("len() of unsized object"))
         try:
             return len(x)
@@ -64,7 +76,9 @@ def install(it):
 
     @nat("range")
     def _range(it, *a):
-        if any(isinstance(x, SV) for x in a):
+        if any(isinstance(x, (SV, Opaque)) for x in a):
+            if getattr(it, "opaque_loops", False):
+                return Opaque("range(unknown)")
             raise EngineError("range() over a symbolic bound (needs a loop invariant)")
         return range(*[int(x) for x in a])
 
@@ -203,8 +217,8 @@ def install(it):
         if not a:
             return set()
         x = a[0]
-        if isinstance(x, Opaque):
-            return Opaque(f"set({x.why})")
+        if unk(it, x):
+            return Opaque(f"set({_w(x)})")
         if isinstance(x, PDict):
             s = PSet()
             for kk, (p, v) in x.e.items():
@@ -225,10 +239,8 @@ def install(it):
     def _list(it, *a):
         if not a:
             return []
-        if isinstance(a[0], Opaque):
-            return Opaque(f"list({a[0].why})")
-        if isinstance(a[0], SV) and getattr(it, "opaque_loops", False):
-            return Opaque("list(unknown)")
+        if unk(it, a[0]):
+            return Opaque(f"list({_w(a[0])})")
         if hasattr(a[0], "sym_list"):
             return a[0].sym_list(it)
         return list(it.iterate(a[0]))
@@ -237,14 +249,14 @@ def install(it):
     def _tuple(it, *a):
         if not a:
             return ()
-        if isinstance(a[0], Opaque):
-            return Opaque(f"tuple({a[0].why})")
+        if unk(it, a[0]):
+            return Opaque(f"tuple({_w(a[0])})")
         return tuple(it.iterate(a[0]))
 
     @nat("sorted")
     def _sorted(it, x, key=None, reverse=False):
-        if isinstance(x, Opaque):
-            return Opaque(f"sorted({x.why})")
+        if unk(it, x):
+            return Opaque(f"sorted({_w(x)})")
         items = it.iterate(x)
         if key is not None:
             keyed = [(it.call(key, [e], {}), e) for e in items]
@@ -258,7 +270,7 @@ def install(it):
 
     @nat("zip")
     def _zip(it, *a, strict=False):
-        if any(isinstance(x, Opaque) for x in a):
+        if any(unk(it, x) for x in a):
             return Opaque("zip(...)")
         if a and all(hasattr(x, "generic_row") for x in a):
             from .arrays import ZipArr
@@ -267,12 +279,16 @@ def install(it):
 
     @nat("enumerate")
     def _enumerate(it, x, start=0):
-        if isinstance(x, Opaque):
-            return Opaque(f"enumerate({x.why})")
+        if unk(it, x):
+            return Opaque(f"enumerate({_w(x)})")
         return list(enumerate(it.iterate(x), start))
 
     @nat("map")
     def _map(it, f, *xs):
+        if any(isinstance(x, Opaque) or getattr(x, "opaque_like", False) for x in xs) and getattr(it, "opaque_loops", False):
+            # unknown sequences: the function is applied once to unknown elements (every store it can make is recorded)
+            it.call(f, [Opaque("element") for _ in xs], {})
+            return Opaque("map(...)")
         return [it.call(f, list(args), {}) for args in zip(*[it.iterate(x) for x in xs])]
 
     @nat("filter")
@@ -286,8 +302,8 @@ def install(it):
 
     @nat("any")
     def _any(it, xs):
-        if isinstance(xs, Opaque):
-            return Opaque(f"any({xs.why})")
+        if unk(it, xs):
+            return Opaque(f"any({_w(xs)})")
         if hasattr(xs, "sym_any"):
             return xs.sym_any(it)
         acc = False
@@ -302,8 +318,8 @@ def install(it):
 
     @nat("all")
     def _all(it, xs):
-        if isinstance(xs, Opaque):
-            return Opaque(f"all({xs.why})")
+        if unk(it, xs):
+            return Opaque(f"all({_w(xs)})")
         if hasattr(xs, "sym_all"):
             return xs.sym_all(it)
         acc = True
@@ -318,8 +334,8 @@ def install(it):
 
     @nat("sum")
     def _sum(it, xs, start=0):
-        if isinstance(xs, Opaque):
-            return Opaque(f"sum({xs.why})")
+        if unk(it, xs):
+            return Opaque(f"sum({_w(xs)})")
         if hasattr(xs, "sym_sum"):
             return xs.sym_sum(it)
         acc = start
@@ -329,8 +345,8 @@ def install(it):
 
     def _minmax(it, which, *a, **k):
         if len(a) == 1:
-            if isinstance(a[0], Opaque):
-                return Opaque(f"{which}({a[0].why})")
+            if unk(it, a[0]):
+                return Opaque(f"{which}({_w(a[0])})")
             if hasattr(a[0], "sym_minmax"):
                 return a[0].sym_minmax(it, which)
             items = it.iterate(a[0])
@@ -632,6 +648,15 @@ def install(it):
     import abc as _abc
     it.stub_modules["abc"] = Namespace("abc", {"ABC": _abc.ABC, "abstractmethod": Native(lambda it, f: f, name="abstractmethod"),
                                                "ABCMeta": _abc.ABCMeta})
+    # numba: a jitted function means what its Python text means (A-NUMBA): the decorators are identities
+    def _jit(it, *a, **k):
+        if len(a) == 1 and not k and isinstance(a[0], (FuncVal,)):
+            return a[0]
+        return Native(lambda it2, f: f, name="jit-decorator")
+    numba_ns = Namespace("numba", {"jit": Native(_jit, name="jit"), "njit": Native(_jit, name="njit"),
+                                   "__version__": "0.60"}, default=lambda attr: Opaque(f"numba.{attr}"))
+    it.stub_modules["numba"] = numba_ns
+    it.stub_modules["pandapower.pf.no_numba"] = numba_ns
     it.stub_modules["sys"] = Opaque("sys")
     it.stub_modules["os"] = Opaque("os")
     it.stub_modules["time"] = Namespace("time", default=lambda attr: Native(lambda it, *a, **k: Opaque("time"), name="time"))
